@@ -471,3 +471,4 @@ def r8_initial_state_owned(ctx):
 
 
 RULES.append(r8_initial_state_owned)
+RULES.append(lazy("common", "r_last_output_order", "completion is inferred from the last output in the order the runner publishes them: a wrong order ends the run with tasks never dispatched"))
